@@ -114,8 +114,10 @@ def with_twin_class(module, kind):
         return {"lines": [f"Twin text. TW{tag}DOCM"], "form": "leader", "marker": f"TW{tag}DOCM"}
     first_body = [{"k": "attr", "cls": "TwCls", "name": "tw_plain", "extra": ["1"], "doc": None}] if kind == "attr" else \
                  [member("tw_plain", kind == "ctor", None)]
+    # ... the documented method is an overload: an undocumented member of the same name precedes it
     second_body = [{"k": "attr", "cls": "TwCls", "name": "tw_documented_attr", "extra": [], "doc": doc("A")},
-                   member("tw_documented_method", False, doc("M"))]
+                   member("tw_documented_method", kind == "ctor", None),
+                   member("tw_documented_method", kind == "ctor", doc("M"))]
     for body in (first_body, second_body):
         mod["items"].append({"k": "class", "name": "TwCls", "bases": ["TwBase"], "doc": None, "body": body})
     return mod
